@@ -1,2 +1,3 @@
 pub mod c01_load;
 pub mod c19_pgp;
+pub mod c02_total;
